@@ -395,7 +395,12 @@ func runC18(c *Ctx) {
 							return []byte{0x82, byte(n >> 8), byte(n)}
 						}
 					}
-					for _, nl := range [][]byte{encLen(0), encLen(sp.contentLen - 1), encLen(sp.contentLen + 1), {0x80}, {0x84, 0xff, 0xff, 0xff, 0xff}, {0x84, 0x7f, 0xff, 0xff, 0xff}} {
+					for _, nl := range [][]byte{encLen(0), encLen(sp.contentLen - 1), encLen(sp.contentLen + 1), {0x80}, {0x84, 0xff, 0xff, 0xff, 0xff}, {0x84, 0x7f, 0xff, 0xff, 0xff},
+						// lengths at the edges of the machine word (offset+length wraps), an absurd number of length octets, and
+						// non-minimal forms of the true length
+						{0x88, 0x7f, 0xff, 0xff, 0xff, 0xff, 0xff, 0xff, 0xff}, {0x88, 0xff, 0xff, 0xff, 0xff, 0xff, 0xff, 0xff, 0xff}, {0x88, 0x80, 0, 0, 0, 0, 0, 0, 0},
+						{0x88, 0x7f, 0xff, 0xff, 0xff, 0xff, 0xff, 0xff, 0xf0}, {0x85, 0x01, 0, 0, 0, 0}, {0x89, 1, 0, 0, 0, 0, 0, 0, 0, 0}, {0xff},
+						append([]byte{0x84, 0, 0}, byte(sp.contentLen>>8), byte(sp.contentLen)), append([]byte{0x88, 0, 0, 0, 0, 0, 0}, byte(sp.contentLen>>8), byte(sp.contentLen))} {
 						m := append([]byte{}, v[:sp.lenOff]...)
 						m = append(m, nl...)
 						m = append(m, v[sp.lenOff+sp.lenLen:]...)
